@@ -445,6 +445,11 @@ func (h *Hub) topicUnreg(sess *Session, topic string, msg *ClientComMessage, rea
 				statsInc("LiveTopics", -1)
 			} else {
 				// Case 1.1.2: requester is NOT the owner or not empty P2P.
+				if msg == nil {
+					// Internal request to delete an abandoned p2p topic, but the topic has been
+					// re-subscribed to since the request was made: nothing to delete.
+					return nil
+				}
 				msg.MetaWhat = constMsgDelTopic
 				msg.sess = sess
 				t.meta <- msg
